@@ -267,3 +267,117 @@ theorem parseBip32Seed_inv {ke : KeyEnv} {s : String} {o : Obj} (h : parseBip32S
         exact ⟨tag, rest, ms, n, hc, Classical.not_not.mp htag, hms, hn, rfl⟩
 
 end Pycoin.Addr
+
+namespace Pycoin.Addr
+open Pycoin.Gen.Networks
+
+/-- the 78-byte layout read backwards: the slices of a blob put together from parts of the right lengths are the parts -/
+theorem layout_unique (p fp idx cc key : Bytes) (d : UInt8) (hp : p.length = 4) (hfp : fp.length = 4) (hidx : idx.length = 4)
+    (hcc : cc.length = 32) (hkey : key.length = 33) :
+    let data := p ++ ([d] ++ fp ++ idx ++ cc ++ key)
+    data.length = 78 ∧ data[4]? = some d ∧ slice data 5 9 = fp ∧ slice data 9 13 = idx ∧ slice data 13 45 = cc ∧
+      data.drop 45 = key ∧ data.take 4 = p := by
+  intro data
+  have hl : data.length = 78 := by simp [data, hp, hfp, hidx, hcc, hkey]
+  obtain ⟨d', hd', hdata⟩ := data78 data hl
+  have e : p ++ ([d] ++ fp ++ idx ++ cc ++ key) =
+      data.take 4 ++ ([d'] ++ slice data 5 9 ++ slice data 9 13 ++ slice data 13 45 ++ data.drop 45) := hdata
+  have l1 : (data.take 4).length = 4 := by simp [hl]
+  have l2 := slice_len data 5 9 (by omega)
+  have l3 := slice_len data 9 13 (by omega)
+  have l4 := slice_len data 13 45 (by omega)
+  obtain ⟨e1, e⟩ := List.append_inj e (by rw [hp, l1])
+  simp only [List.append_assoc, List.singleton_append] at e
+  obtain ⟨ed, e⟩ := List.cons_eq_cons.mp e
+  obtain ⟨e2, e⟩ := List.append_inj e (by rw [hfp, l2])
+  obtain ⟨e3, e⟩ := List.append_inj e (by rw [hidx, l3])
+  obtain ⟨e4, e5⟩ := List.append_inj e (by rw [hcc, l4])
+  exact ⟨hl, by rw [hd', ed], e2.symm, e3.symm, e4.symm, e5.symm, e1.symm⟩
+
+/-- `hwif(as_private=True)` of a private node with well-sized fields parses back to the node (text → node direction of
+the extended-key round trip, for nodes that were not parsed from text: the masters of `P:`/`H:` seeds) -/
+theorem hparse_hwif_private (env : Env) (laws : CodecLaws env) (ke : KeyEnv) (kl : KeyLaws ke) (net : Network) (hn : net ∈ all)
+    (n : NodeObj) (p : Bytes) (hp : nodeParsePrefix net n.kind true = some p) (v : Int)
+    (hk : mkPrivateKey ke v true = .ok n.key) (hd : n.depth ≤ 255) (hfp : n.fingerprint.length = 4)
+    (hidx : n.childIndex < 2 ^ 32) (hcc : n.chainCode.length = 32) :
+    ∃ t, hwif env net n true = .ok t ∧ hparse env ke net n.kind true t = .ok (some (.node n)) := by
+  obtain ⟨p4, hout, hhash, -⟩ := ext_table net hn n.kind true p hp
+  obtain ⟨h1, h2, hkey, -⟩ := mkPrivateKey_inv hk
+  obtain ⟨s, rfl⟩ := Int.eq_ofNat_of_zero_le (show (0 : Int) ≤ v by omega)
+  have hs : s < 256 ^ 32 := by
+    have := kl.order256; rw [pow256_32]
+    have : s < ke.order := by exact_mod_cast h2
+    omega
+  have hse : n.key.se = some s := by rw [hkey]; simp
+  obtain ⟨hl, l4, l59, l913, l1345, l45, ltake⟩ :=
+    layout_unique p n.fingerprint (beBytes n.childIndex 4) n.chainCode (0 :: beBytes s 32) (UInt8.ofNat n.depth) p4 hfp
+      (by simp) hcc (by simp)
+  generalize hdata : p ++ ([UInt8.ofNat n.depth] ++ n.fingerprint ++ beBytes n.childIndex 4 ++ n.chainCode ++ 0 :: beBytes s 32) = data
+    at hl l4 l59 l913 l1345 l45 ltake
+  refine ⟨env.b58cEnc net.hashParse data, ?_, ?_⟩
+  · simp only [hwif, nodeSerialize, hse, if_true, bind, Except.bind, b58Text, hout, hhash, hdata]
+  · have hdec : parseB58Hashed env net (env.b58cEnc net.hashParse data) = some data := by
+      unfold parseB58Hashed
+      apply laws.b58_rt
+      intro h; rw [h] at hl; simp at hl
+    have hpre : isPrefixOf p data = true := by rw [← hdata]; exact isPrefixOf_append' p _
+    have h8 : (slice data 5 13).length = 8 := by rw [slice_len _ _ _ (by omega)]
+    have h45 : slice data 45 46 = [0] := by
+      have : slice data 45 46 = (data.drop 45).take 1 := rfl
+      rw [this, l45]; rfl
+    have h46 : data.drop 46 = beBytes s 32 := by
+      have : data.drop 46 = (data.drop 45).drop 1 := by rw [List.drop_drop]
+      rw [this, l45]; rfl
+    have hidxv : n.childIndex < 256 ^ 4 := by
+      have : (256 : Nat) ^ 4 = 2 ^ 32 := by decide
+      omega
+    have hdep : (UInt8.ofNat n.depth).toNat = n.depth := by
+      rw [UInt8.toNat_ofNat']; omega
+    unfold hparse
+    simp only [hdec, hp, hpre, Bool.not_true, Bool.false_eq_true, if_false, hl, ne_eq, not_true_eq_false]
+    have hds : deserialize ke n.kind data = .ok n := by
+      unfold deserialize
+      simp only [h8, ne_eq, not_true_eq_false, if_false, deserializeKey, h45, if_true, h46, beNat_beBytes_of_lt hs, hk,
+        l1345, hcc, l4, hdep, l59, l913, beNat_beBytes_of_lt hidxv]
+    simp only [hds]
+
+/-- ★ seeds: `P:<text>` / `H:<hex>` is accepted exactly with the master node BIP32 defines for the seed bytes
+`ms` (UTF-8 of the text, or the bytes of the hex): with `I = HMAC-SHA512(key = "Bitcoin seed", ms)`, secret exponent
+`parse256(I_L)` — required to lie in `[1, n)`, otherwise the text is refused —, chain code `I_R`, depth 0, parent
+fingerprint `00000000`, child number 0, class BIP32, compressed key; and — where the network has a BIP32 private
+prefix — `hwif(as_private=True)` of the node parses back to the node -/
+theorem parseBip32Seed_reserialises (env : Env) (laws : CodecLaws env) (ke : KeyEnv) (kl : KeyLaws ke) (net : Network)
+    (hn : net ∈ all) (s : String) (o : Obj) (h : parseBip32Seed ke s = .ok (some o)) :
+    ∃ tag rest ms n, parseColonPrefix s = some (tag, rest) ∧ seedBytes tag rest = some ms ∧ o = .node n ∧
+      fromMasterSecret ke ms = .ok n ∧
+      n.kind = 32 ∧ n.depth = 0 ∧ n.fingerprint = [0, 0, 0, 0] ∧ n.childIndex = 0 ∧
+      n.chainCode = (ke.hmacSha512 "Bitcoin seed".toUTF8.toList ms).drop 32 ∧
+      n.key.se = some (beNat ((ke.hmacSha512 "Bitcoin seed".toUTF8.toList ms).take 32)) ∧
+      1 ≤ beNat ((ke.hmacSha512 "Bitcoin seed".toUTF8.toList ms).take 32) ∧
+      beNat ((ke.hmacSha512 "Bitcoin seed".toUTF8.toList ms).take 32) < ke.order ∧
+      n.key.compressed = true ∧ n.key.InRange ke ∧
+      ∀ p, net.parseBip32Prv = some p →
+        ∃ t, hwif env net n true = .ok t ∧ hparse env ke net 32 true t = .ok (some (.node n)) := by
+  obtain ⟨tag, rest, ms, n, hc, -, hms, hn', rfl⟩ := parseBip32Seed_inv h
+  obtain ⟨k, hk, rfl⟩ := fromMasterSecret_inv hn'
+  obtain ⟨hr, hse, hcomp, h1, h2⟩ := inRange_private kl hk
+  refine ⟨tag, rest, ms, _, hc, hms, rfl, hn', rfl, rfl, rfl, rfl, rfl, by simpa using hse, by omega, by omega, hcomp, hr, ?_⟩
+  intro p hp
+  exact hparse_hwif_private env laws ke kl net hn _ p (by simpa [nodeParsePrefix] using hp) _ hk (by simp) (by simp) (by simp)
+    (by simp [kl.hmac_len])
+
+/-- a seed whose `I_L` is 0 or not below the group order: refused (BIP32: "the master key is invalid") -/
+theorem parseBip32Seed_refuses (ke : KeyEnv) (s tag rest : String) (ms : Bytes) (hc : parseColonPrefix s = some (tag, rest))
+    (hms : seedBytes tag rest = some ms)
+    (h : beNat ((ke.hmacSha512 "Bitcoin seed".toUTF8.toList ms).take 32) = 0 ∨
+      beNat ((ke.hmacSha512 "Bitcoin seed".toUTF8.toList ms).take 32) ≥ ke.order) :
+    parseBip32Seed ke s = .ok none := by
+  unfold parseBip32Seed
+  simp only [hc, hms]
+  split
+  · rfl
+  · have := mkPrivateKey_range (ke := ke) (v := (beNat ((ke.hmacSha512 "Bitcoin seed".toUTF8.toList ms).take 32) : Nat)) true
+      (by omega)
+    simp only [fromMasterSecret, this]
+
+end Pycoin.Addr
